@@ -87,6 +87,16 @@ pub fn gen_case(r: &mut Rng) -> DetCase {
         rows.push(buy("BRK B", last_day + 4, "", 3, 11));
         rows.push(buy("BRK-B", last_day + 5, "", 4, 12));
     }
+    // a superficial loss shared by two buyers who end the window with the same holding: their
+    // adjustment rows come in affiliate order, whatever the hash order of the map they come from
+    if r.chance(60) {
+        let d = last_day + 30;
+        rows.push(buy("EQL", d, "", 100, 50));
+        rows.push(GenRow { action: "Sell", ..buy("EQL", d + 40, "", 60, 30) });
+        for a in ["Aunt", "Kid", "Zoe", "Bob"] {
+            rows.push(buy("EQL", d + 45, a, 7, 31));
+        }
+    }
     // a ticker that cannot be a file name as it stands (path separator), next to the name its file
     // gets: neither may stop, or share a file with, another security (F-08b)
     if r.chance(30) {
